@@ -69,6 +69,7 @@ type Res struct {
 	Bad    []string ` + "`json:\",omitempty\"`" + `
 	NRunes int
 	Hist   []Res    ` + "`json:\",omitempty\"`" + `
+	LateShape []string ` + "`json:\",omitempty\"`" + ` // history mode: the tree of every step, kept by the caller and rendered after the whole history
 	LateErr []string ` + "`json:\",omitempty\"`" + ` // history mode: every returned error formatted once more after the whole history
 }
 
@@ -125,18 +126,7 @@ func collect[U Uint](p *{{.Type}}[U], err error, req *Req, res *Res) {
 		p.Execute()
 	}
 {{end}}
-	var sb bytes.Buffer
-	var walk func(n *node[U])
-	walk = func(n *node[U]) {
-		for n != nil {
-			fmt.Fprintf(&sb, "%s[%d,%d](", rul3s[n.pegRule], n.begin, n.end)
-			walk(n.up)
-			sb.WriteString(")")
-			n = n.next
-		}
-	}
-	walk(p.AST())
-	res.Shape = sb.String()
+	res.Shape = shapeOf(p.AST())
 	res.Sprint = p.SprintSyntaxTree()
 	var wb bytes.Buffer
 	p.WriteSyntaxTree(&wb)
@@ -157,6 +147,24 @@ func collect[U Uint](p *{{.Type}}[U], err error, req *Req, res *Res) {
 {{end}}
 	res.Trace = p.Trace
 }
+
+{{if not .NoAST}}
+// shapeOf renders a tree returned by AST(): rule[begin,end](children) for every node, siblings in order.
+func shapeOf[U Uint](root *node[U]) string {
+	var sb bytes.Buffer
+	var walk func(n *node[U])
+	walk = func(n *node[U]) {
+		for n != nil {
+			fmt.Fprintf(&sb, "%s[%d,%d](", rul3s[n.pegRule], n.begin, n.end)
+			walk(n.up)
+			sb.WriteString(")")
+			n = n.next
+		}
+	}
+	walk(root)
+	return sb.String()
+}
+{{end}}
 
 func captureStdout(f func()) string {
 	old := os.Stdout
@@ -240,7 +248,8 @@ func history[U Uint](req *Req) (res Res) {
 		return
 	}
 	var kept []error
-	for k, in := range req.Hist {
+{{if not .NoAST}}	var trees []*node[U] // the tree of every accepted step, held by the caller while the parser goes on to other inputs
+{{end}}	for k, in := range req.Hist {
 		var r Res
 		func() {
 			defer func() {
@@ -260,10 +269,25 @@ func history[U Uint](req *Req) (res Res) {
 				kept = append(kept, err)
 			}
 			collect(p, err, req, &r)
-		}()
+{{if not .NoAST}}			if err == nil {
+				trees = append(trees, p.AST())
+			} else {
+				trees = append(trees, nil)
+			}
+{{end}}		}()
 		res.Hist = append(res.Hist, r)
 	}
-	// errors kept by the caller and formatted later: what they say may depend on this instance's own later inputs,
+{{if not .NoAST}}	for _, t := range trees {
+		func() {
+			defer func() {
+				if x := recover(); x != nil {
+					res.LateShape = append(res.LateShape, "PANIC "+fmt.Sprint(x))
+				}
+			}()
+			res.LateShape = append(res.LateShape, shapeOf(t))
+		}()
+	}
+{{end}}	// errors kept by the caller and formatted later: what they say may depend on this instance's own later inputs,
 	// but never on what other instances did meanwhile
 	for _, e := range kept {
 		func() {
